@@ -36,7 +36,7 @@ from .explicit_regression import (
 )  # this forces use of python fit funcs
 from .equation_regressor import EquationRegressor
 
-DEFAULT_OPERATORS = {"+", "-", "*", "/"}
+DEFAULT_OPERATORS = ("+", "-", "*", "/")
 SUPPORTED_EA_STRS = {
     "AgeFitnessEA": AgeFitnessEA,
     "GeneralizedCrowdingEA": GeneralizedCrowdingEA,
@@ -192,7 +192,12 @@ class SymbolicRegressor(RegressorMixin, BaseEstimator):
     # pylint: disable=attribute-defined-outside-init
     def _get_archipelago(self, X, y, n_processes):
         self.component_generator = ComponentGenerator(X.shape[1])
-        for operator in self.operators:
+        operators = self.operators
+        if isinstance(operators, (set, frozenset)):
+            # set iteration order depends on PYTHONHASHSEED; keep seeded runs
+            # reproducible across interpreter processes
+            operators = sorted(operators)
+        for operator in operators:
             self.component_generator.add_operator(operator)
 
         self.crossover = AGraphCrossover()
